@@ -293,8 +293,8 @@ def exec_for(it, node):
     for p in lc.get('havoc', []):
         cell, field = resolve_path(it, p)
         havoc_cell_field(ctx, cell, field)
-    if lc.get('shape'):
-        lc['shape'](it)
+    if lc.get('at_head'):
+        lc['at_head'](it)
     k = ctx.fresh_int('k')
     ctx.inst_terms.append(k)
     ctx.assume(z3.And(k >= 0, k <= n))
